@@ -272,8 +272,8 @@ func c02Run(w *kernel.Worker, j *c02Job, rep *kernel.Report) (*Fail, error) {
 	var err error
 	pqs := strings.HasPrefix(j.Layout.Name, "pqs-")
 	if pqs {
-		// persistent-query layouts: the first event makes a segment of its own; then the left atom and its AND/OR
-		// pairs are run twice against the index (which is how a filter becomes a tracked persistent query); the
+		// persistent-query layouts: the first event is flushed; then the left atom and its AND/OR pairs are run twice
+		// against the index (which is how a filter becomes a tracked persistent query) and the segment is rotated; the
 		// segment that takes the remaining events evaluates the tracked filters while ingesting (a second evaluator
 		// of the same filters) and its answers are served from those bitsets (pqs-open: unrotated, pqs-rotated: from
 		// the pqmr files). All oracles below apply unchanged.
@@ -282,7 +282,7 @@ func c02Run(w *kernel.Worker, j *c02Job, rep *kernel.Report) (*Fail, error) {
 		}
 		defer func() { _ = setTun(w, "pqs", 0); _ = w.Call("clearpqs", nil, nil) }()
 		if err == nil {
-			idx, err = LoadDataset(w, "c02x", ds.Events[:1], Layout{"", []int{2}}, rep)
+			idx, err = LoadDataset(w, "c02x", ds.Events[:1], Layout{"", []int{1}}, rep)
 		}
 		if err == nil {
 			L := atoms[j.Atom]
@@ -294,6 +294,11 @@ func c02Run(w *kernel.Worker, j *c02Job, rep *kernel.Report) (*Fail, error) {
 			for rpt := 0; rpt < 2 && err == nil; rpt++ {
 				_, err = runQueries(w, reg)
 			}
+		}
+		if err == nil {
+			// a segment takes over the tracked filters when it is started, i.e. at the rotation of its predecessor: the
+			// rotation comes after the registration
+			err = w.Call("rotate", nil, nil)
 		}
 		for i := 1; i < len(ds.Events) && err == nil; i++ {
 			if err = ingestStep(w, 0, idx, []string{ds.Events[i]}); err != nil {
